@@ -37,7 +37,7 @@ def build_and_probe(cfg, corpus_hex, idx):
             ev["log"] = q.stdout[-600:]
         else:
             for ln in q.stdout.splitlines():
-                c, n, d = ln.split(" ")
+                c, n, d = ln.split(" ")[:3]
                 ev["results"].append([c, int(n), d])
     shutil.rmtree(tdir, ignore_errors=True)
     return ev
